@@ -251,4 +251,6 @@ func runC07(c *Ctx) {
 		zr := runHostile("$INCLUDE self.db\n", true, true, "example.org.", false)
 		c.Pred("directed", "self-include-stops", "self.db", zr.errText != "" && zr.opens <= 8 && !zr.hung, fmt.Sprint(zr.opens, " opens: ", zr.errText), "error after at most 8 opens", true)
 	}
+	// the lexer model against zlexer.Next, token by token
+	lexStream(c, c.Scale(3000, 60000))
 }
